@@ -18,7 +18,7 @@ use p2panda_stream::orderer::Orderer;
 use p2panda_stream::Processor;
 
 use crate::minv::MinV;
-use crate::gate::{drive_next, key, make_item, wipe, Ctl, Ctx, Gate, Item, NextEnd};
+use crate::gate::{take_trouble, too_much_trouble, trouble, drive_next, key, make_item, wipe, Ctl, Ctx, Gate, Item, NextEnd};
 
 #[allow(dead_code)]
 #[path = "/repo/p2panda-stream/src/orderer/orderer.rs"]
@@ -347,24 +347,37 @@ struct CaseResult {
 }
 
 fn exec_case(case: &Case) -> CaseResult {
+    if too_much_trouble() {
+        return CaseResult { case: case.clone(), evs: Err("skipped".into()) };
+    }
     let ctx = Ctx::take();
     let store = ctx.store();
     let r = catch(|| {
-        ctx.rt.block_on(async {
-            wipe(&store).await?;
-            if case.level == "processor" {
-                run_processor_level(&store, case).await
-            } else {
-                run_inner_level(&store, case).await
+        ctx.rt().block_on(async {
+            let run = async {
+                wipe(&store).await?;
+                if case.level == "processor" {
+                    run_processor_level(&store, case).await
+                } else {
+                    run_inner_level(&store, case).await
+                }
+            };
+            match tokio::time::timeout(Duration::from_secs(20), run).await {
+                Ok(r) => r,
+                Err(_) => Err("the case did not finish within 20 s (hang)".to_string()),
             }
         })
     });
     match r {
         Ok(evs) => {
+            if evs.is_err() {
+                trouble();
+            }
             ctx.give_back(evs.is_ok());
             CaseResult { case: case.clone(), evs }
         }
         Err(p) => {
+            trouble();
             ctx.give_back(false);
             CaseResult {
                 case: case.clone(),
@@ -484,6 +497,7 @@ fn judge(rep: &mut Report, mv: &mut MinV, r: &CaseResult) -> Option<BTreeSet<usi
     let case = &r.case;
     let evs = match &r.evs {
         Ok(e) => e,
+        Err(e) if e == "skipped" => return None,
         Err(e) => {
             let class = if e.starts_with("panic") { "panic" } else { "error" };
             let short: String = e.chars().take(50).collect::<String>().replace(' ', "-");
@@ -541,9 +555,9 @@ pub fn run(mut rep: Report) -> i32 {
         ]
     } else {
         vec![
-            (p("inner n<=3, lists with appended repeats, permutations + re-deliveries, both drain policies", "inner", 1, 3, Medium, true, true), 25),
-            (p("processor n<=2, rich lists, permutations + re-deliveries, both drain policies", "processor", 1, 2, Rich, true, true), 5),
-            (p("processor n=3, lists with appended repeats, permutations, drain after every delivery", "processor", 3, 3, Medium, false, false), 10),
+            (p("inner n<=3, lists with appended repeats, permutations + re-deliveries, both drain policies", "inner", 1, 3, Medium, true, true), 90),
+            (p("processor n<=2, rich lists, permutations + re-deliveries, both drain policies", "processor", 1, 2, Rich, true, true), 30),
+            (p("processor n=3, lists with appended repeats, permutations, drain after every delivery", "processor", 3, 3, Medium, false, false), 45),
         ]
     };
     let mut by_level: BTreeMap<&'static str, u64> = BTreeMap::new();
@@ -581,6 +595,7 @@ pub fn run(mut rep: Report) -> i32 {
                             }
                             finals.insert((r.case.lists.clone(), r.case.delivery.clone(), r.case.drain_each), f);
                         }
+                        None if r.evs.as_ref().err().map(|e| e == "skipped").unwrap_or(false) => {}
                         None => *vb.entry(r.case.level.to_string()).or_default() += 1,
                     }
                 },
@@ -606,6 +621,7 @@ pub fn run(mut rep: Report) -> i32 {
             }
         }
     }
+    let cut_short = take_trouble();
     {
         let mut scratch = Report::new(&rep.args, "model_checking");
         mv.confirm(&mut rep, |rp| match Case::from_json(rp) {
@@ -619,6 +635,9 @@ pub fn run(mut rep: Report) -> i32 {
         });
     }
     Ctx::drain_pool();
+    if cut_short {
+        rep.not_exhaustive("exploration cut short after 24 cases ended in a hang, panic or store error (each is reported as a violation)");
+    }
     mv.flush(&mut rep);
     rep.set("cases_per_level", json!(by_level));
     rep.set("violating_cases_per_level", json!(viol_by_level));
